@@ -269,9 +269,9 @@ var _ = big.NewRat
 func init() {
 	exhN := 1 + 9 + 81 + 729 + 6561 + 59049 + 531441
 	fw.Register(&fw.Monitor{
-		ID:    "C20",
-		Title: "Douglas-Peucker simplification honours its threshold",
-		Rule: "SimplifyFlatCoords on sequences of 0..200 integer-grid points (random walks, closed loops, repeated points, collinear runs, constant-amplitude zig-zags, spikes next to an end), stride 2..5 with arbitrary extra ordinates (NaN included), thresholds {0, an exact distance of the input, integers, random, huge}: indexes strictly increasing incl. first and last; each dropped point's exact rational distance to the segment between its nearest retained neighbours <= threshold*(1+2^-50)+2^-46*max|ordinate|; with threshold 0 dropped points lie exactly on that segment; a second pass drops nothing; result identical to the XY-only input. distinct_nontrivial = distinct (class, n, kept, stride)",
+		ID:     "C20",
+		Title:  "Douglas-Peucker simplification honours its threshold",
+		Rule:   "SimplifyFlatCoords on sequences of 0..200 integer-grid points (random walks, closed loops, repeated points, collinear runs, constant-amplitude zig-zags, spikes next to an end), stride 2..5 with arbitrary extra ordinates (NaN included), thresholds {0, an exact distance of the input, integers, random, huge}: indexes strictly increasing incl. first and last; each dropped point's exact rational distance to the segment between its nearest retained neighbours <= threshold*(1+2^-50)+2^-46*max|ordinate|; with threshold 0 dropped points lie exactly on that segment; a second pass drops nothing; result identical to the XY-only input. distinct_nontrivial = distinct (class, n, kept, stride)",
 		Assume: []string{"math/big exact"},
 		Classes: []fw.Class{
 			{Name: "random", Quick: 60000, Thorough: 3000000, Run: c20Random},
